@@ -95,10 +95,11 @@ class ClientWorld(world.World):
     s = o.get('s')
     if op == 'from_study_config':
       sc = svz.StudyConfig.from_proto(world.study_proto(s, o['cfg']).study_spec)
-      st = clients.Study.from_study_config(sc, owner=self.owner_id, study_id=s)
-      return st.resource_name.split('/')[-1]
+      st = clients.Study.from_study_config(sc, owner=self.owner_id, study_id=self.sid(s))
+      return self.TOKEN_OF.get(st.resource_name.split('/')[-1], st.resource_name.split('/')[-1])
     if op == 'from_resource_name':
-      return clients.Study.from_resource_name(self.sname(s)).resource_name.split('/')[-1]
+      rid = clients.Study.from_resource_name(self.sname(s)).resource_name.split('/')[-1]
+      return self.TOKEN_OF.get(rid, rid)
     if op in ('suggest', 'check_early_stopping') and o['env'].get('raise') and 'at' not in o['env']:
       self._raises = getattr(self, '_raises', 0) + 1
       o = dict(o, env=dict(o['env'], at='factory' if self._raises % 2 == 1 else 'policy'))
